@@ -4,7 +4,9 @@ import (
 	"fmt"
 	"go/types"
 	"math/big"
+	"regexp"
 	"strings"
+	"sync"
 )
 
 // TypeEnv maps Go types to SMT sorts and heap keys. One per VC.
@@ -31,8 +33,27 @@ func newTypeEnv(g *Global) *TypeEnv {
 	return &TypeEnv{structs: map[string]*StructInfo{}, fids: map[string]int{}, tags: map[string]int{}, strs: map[string]int{"": 0}, fns: map[string]int{}, glob: g, fidName: []string{""}, tagType: []types.Type{nil}}
 }
 
+var aliasRe = regexp.MustCompile(`\b(byte|rune|any)\b`)
+var typeKeyCache sync.Map
+
+// typeKey is the canonical name of a type: byte/rune/any are spelled as the
+// types they alias so that []byte and []uint8 share one heap key.
 func typeKey(t types.Type) string {
-	return types.TypeString(t, func(p *types.Package) string { return p.Path() })
+	if s, ok := typeKeyCache.Load(t); ok {
+		return s.(string)
+	}
+	s := types.TypeString(t, func(p *types.Package) string { return p.Path() })
+	s = aliasRe.ReplaceAllStringFunc(s, func(m string) string {
+		switch m {
+		case "byte":
+			return "uint8"
+		case "rune":
+			return "int32"
+		}
+		return "interface{}"
+	})
+	typeKeyCache.Store(t, s)
+	return s
 }
 
 // opaqueScalar reports named library types that are modelled as scalars.
